@@ -93,3 +93,18 @@ for two in (0,1):
     add("C06.recvloop_%s"%("two" if two else "one"),"VH_c06_recvloop",SRV,sc+["server/c06.go","server/c06cat.go"],{"two":two},{"two":two},merge=UM,expect_reach=["install","withdraw","reset"],bounds="the real recvMessageloop reading one UPDATE (base + %s catalogue fault(s)) from a scripted transport; eBGP/iBGP x revised error handling on/off"%("two" if two else "one"))
 add("C02.server_history","VH_c02_server_history",SRV,sc+["server/c02.go"],{"params":{"steps":2},"unwind":2200},{"params":{"steps":3},"unwind":2200},expect_reach=["installed","looped"],bounds="real BgpServer.handleFSMMessage, one eBGP peer, one prefix, every history of 2 (quick) / 3 UPDATEs over {clean announce (symbolic AS), looped announce, withdraw}")
 add("C01.server_fanout","VH_c01_server_fanout",SRV,sc+["server/c01.go"],{"params":{"steps":2},"unwind":2200},{"params":{"steps":3},"unwind":2200},expect_reach=["advertised","empty"],bounds="real BgpServer.handleFSMMessage; 4 established peers (eBGP source, iBGP source, eBGP target, iBGP target), one prefix, every history of 2 (quick) / 3 UPDATEs (source, announce with symbolic AS / withdraw); observed at each peer's outgoing queue")
+add("C01.server_addpath","VH_c01_server_addpath",SRV,sc+["server/c01.go"],{"params":{"steps":4,"sources":2,"sendmax":1},"unwind":2200},{"params":{"steps":5,"sources":3,"sendmax":2},"unwind":2200,"harness_s":3000},expect_reach=["advertised","held_back"],bounds="real BgpServer.handleFSMMessage; `sources` eBGP sources and one ADD-PATH-send target with send-max `sendmax`, one prefix, every history of `steps` announce/withdraw events")
+C08B="real fsm.stateChange(Established)/open2Cap: "
+add("C08.timers","VH_c08_negotiate",SRV,sc+["server/c08.go"],{"tuples":0,"aspect":1},{"tuples":0,"aspect":1},expect_reach=["end"],bounds=C08B+"local hold 0|3..65535, local keepalive 0..65535, remote hold 0|3..65535 (floating point decided in the SMT FloatingPoint theory)")
+add("C08.families","VH_c08_negotiate",SRV,sc+["server/c08.go"],{"tuples":2,"aspect":2},{"tuples":3,"aspect":2},expect_reach=["end","addpath"],bounds=C08B+"2 families configured on/off with ADD-PATH send/receive per family x received OPEN with MP capability per family or none and `tuples` ADD-PATH tuples (symbolic family and mode, in one or two capabilities)")
+add("C08.as_ext","VH_c08_negotiate",SRV,sc+["server/c08.go"],{"tuples":0,"aspect":4},{"tuples":0,"aspect":4},expect_reach=["end"],bounds=C08B+"remote AS 1..2^32-1 (AS_TRANS when above 65535), peer AS configured or not, 4-octet AS and extended message capabilities on/off, flags left by the previous session symbolic")
+add("C08.max_length","VH_c08_max_length",SRV,sc+["server/c08.go"],expect_reach=["too_large","accepted"],bounds="real recvMessageWithError on every header (type 0..255, length 0..65535) x Extended Message negotiated or not; the body read is cut short (connection ends after the header)")
+C07B="one step of the real fsmHandler.%s on a scripted transport and the virtual clock: every event of {valid OPEN, OPEN with bad version / peer AS / identifier / hold time 1-2, KEEPALIVE, UPDATE, NOTIFICATION, header with bad marker byte / length / type, connection closed by the peer, silence until the hold timer} with symbolic field values"
+add("C07.opensent","VH_c07_opensent",SRV,sc+["server/c07.go"],expect_reach=["openconfirm","fsm_error","closed","hold_expired","refused"],bounds=C07B%"opensent")
+add("C07.openconfirm","VH_c07_openconfirm",SRV,sc+["server/c07.go"],expect_reach=["established","fsm_error","hold_expired","refused"],bounds=C07B%"openconfirm")
+add("C07.dominant","VH_c07_dominant",SRV,sc+["server/c07.go"],expect_reach=["end"],bounds="fsm.isDominant for every pair of BGP identifiers and AS numbers (2- and 4-octet)")
+add("C07.established","VH_c07_established",SRV,sc+["server/c07.go"],expect_reach=["hold_expired","notification","refused","closed","admin_down","prefix_limit"],bounds="one step of the real fsmHandler.established with its receive and send goroutines (cooperative schedule) on a scripted transport and the virtual clock: every event of {KEEPALIVE, UPDATE, NOTIFICATION (any code 1..6 / subcode), OPEN, header with bad marker / length / type, connection closed by the peer, silence, administrative shutdown, prefix-limit shutdown} followed by silence x graceful restart / N bit negotiated or not; hold time 3 s")
+add("C07.idle","VH_c07_idle",SRV,sc+["server/c07.go"],expect_reach=["active"],bounds="the real fsmHandler.idle for each admin state (up, down, prefix-limit shutdown), idle hold time 1..2 s; paths on which the handler never returns end unobserved")
+add("C07.server_guards","VH_c07_server_guards",SRV,sc+["server/c07.go"],{"params":{"updates":2},"unwind":2200},{"params":{"updates":3},"unwind":2200},expect_reach=["ignored","limit","installed"],bounds="real BgpServer.handleFSMMessage with the peer in each of the 6 states, message older than the session or not, prefix limit 0..2, `updates` UPDATEs for distinct prefixes")
+add("C12.gr_cycle","VH_c12_gr_cycle",SRV,sc+["server/c12.go"],{"params":{},"unwind":2200},{"params":{},"unwind":2200},expect_reach=["dropped","timer_expired","all_eor","waiting"],bounds="real BgpServer.handleFSMMessage / fsm.stateChange over a full cycle: session with 2 families and a symbolic subset of them in the peer's GR capability; 1 route per family + End-of-RIB; graceful or non-graceful loss; then restart-timer expiry, or re-establishment with symbolic partial re-announcement and End-of-RIB per family")
+add("C12.loss_classification","VH_c07_established",SRV,sc+["server/c07.go"],expect_reach=["hold_expired","notification","closed","admin_down"],bounds="classification of the loss reason by the real fsmHandler.established / recvMessageloop: every event x graceful restart / N bit negotiated or not (see C07.established)")
